@@ -270,6 +270,7 @@ def _oracle_dohist(call):
 
 
 def install():
+    probe.enable_argflip({"histogram": lambda a, k: k.get("weights") is None or isinstance(k.get("weights"), np.ndarray)}, every=4)
     probe.enable_recall("C05.recall", every=5)
     probe.instrument("esutil.stat.util:histogram", [_oracle_histogram], also=["esutil.stat"])
     probe.instrument("esutil.stat.util:Binner.dohist", [_oracle_dohist])
